@@ -181,6 +181,8 @@ M = [
     ('C02', 'PGPKey.revoker', 'pgpy.pgp', "        prefs['revocable'] = False\n        return self._sign(self, sig, **prefs)", "        return self._sign(self, sig, **prefs)"),
     ('C02', 'PGPKey.revoker', 'pgpy.pgp', "                                         algorithm=revoker.key_algorithm,\n                                         fingerprint=revoker.fingerprint,", "                                         algorithm=self.key_algorithm,\n                                         fingerprint=revoker.fingerprint,"),
     ('C02', 'PGPKey.revoker[sens', 'pgpy.pgp', "        keyclass = RevocationKeyClass.Normal | (RevocationKeyClass.Sensitive if sensitive else 0x00)", "        keyclass = RevocationKeyClass.Normal"),
+    ('C19', '_sort_alias', 'pgpy.pgp', "            self._aliases[depth][alias] = pkid\n\n        # finally", "            self._aliases[0][alias] = pkid\n\n        # finally"),
+    ('C19', '_sort_alias', 'pgpy.pgp', "        pkids = sorted(list(set().union(m.pop(alias) for m in self._aliases if alias in m)),", "        pkids = sorted(list(set().union(m[alias] for m in self._aliases if alias in m)),"),
     ('C19', '_add_alias', 'pgpy.pgp', "        elif alias in self and pkid in set(m[alias] for m in self._aliases if alias in m):", "        elif alias in self and pkid not in set(m[alias] for m in self._aliases if alias in m):"),
     ('C19', '_add_alias', 'pgpy.pgp', "            self._aliases[adepth][alias] = pkid\n            self._sort_alias(alias)", "            self._aliases[0][alias] = pkid\n            self._sort_alias(alias)"),
     ('C19', '_add_alias', 'pgpy.pgp', "            self._aliases[adepth][alias] = pkid\n            self._sort_alias(alias)", "            self._aliases[adepth][alias] = pkid"),
